@@ -36,6 +36,10 @@ HIST_TEMPLATES = [
     "{{ v | upcase }}{{ v | escape }}{{ v | url_encode }}",
     "{% liquid\nassign z = v | default: w\necho z\n%}",
     "{% assign s = v | split: ',' %}{{ s | reverse | join: ',' }}",
+    "{{ v | strip_html }}|{{ w | strip_html }}|{{ v | strip_newlines | escape_once }}",
+    "{{ v }}",
+    "{{ v | append: '!' | size }}|{{ lst | join: '-' | size }}",
+    "{{ v | truncatewords: 2 }}|{{ v | newline_to_br }}|{{ v | slice: 0, 3 }}",
 ]
 HIST_VALUES = [
     1, 1.0, True, 0, 0.0, False, "1", T("markup", v="1"), "<b>", T("markup", v="<b>"), "a,b", None,
@@ -43,6 +47,9 @@ HIST_VALUES = [
     T("datetime", v="2024-03-01T07:00:00", tz=-300), T("datetime", v="2024-03-01T12:00:00", tz=None),
     T("date", v="2024-03-01"), T("datetime", v="2024-03-01T00:00:00", tz=None), 1709294400, "1709294400",
     "2024-03-01", "March 1, 2024", [3, 1, 2], [1, 1.0, True], [{"a": 1}, {"a": 2}], T("decimal", v="1"),
+    # values that push a helper into an unusual internal state: unbalanced markup, an int beyond the int/str digit limit
+    "<p>before</p><script>alert(1)", "x</script><p>Hello, <b>World</b>!</p>", "<style>p{}", "<p>Hello, <b>World</b>!</p>",
+    T("pow10", n=5000), [T("pow10", n=5000), 1],
 ]
 FORMATS = ["%Y", "%H:%M", T("markup", v="%Y"), "%d", "%s"]
 HIST_CFGS = [
